@@ -21,6 +21,9 @@ import tempfile
 import time
 
 VERIF = os.path.dirname(os.path.abspath(__file__))
+# the generated campaigns of the thorough tier run this many times the
+# case count a module asks for (VERIF_THOROUGH_FACTOR=4 for a deeper run)
+THOROUGH_FACTOR = float(os.environ.get('VERIF_THOROUGH_FACTOR', '2'))
 sys.path.insert(0, VERIF)
 DEPS = os.path.join(VERIF, '.deps')
 
@@ -137,7 +140,8 @@ def main():
         if args.tier == 'thorough' and getattr(mod, 'AUTO_SHARD', True):
             # Hypothesis is single-core: split every generated campaign
             # that the module did not shard itself over the cores (each
-            # shard has its own seed; together they run four times the cases)
+            # shard has its own seed; together they run THOROUGH_FACTOR
+            # times the module's thorough case count)
             plain = [c for c in cfgs if c.get('mode', 'hyp') == 'hyp' and
                      'shard' not in c and 'n' in c]
             k = max(1, min(8, args.jobs // max(1, len(cfgs))))
@@ -151,7 +155,8 @@ def main():
                         d = dict(c)
                         d['shard'] = sh
                         d['name'] = '%s-s%d' % (c.get('name', 'cfg'), sh)
-                        d['n'] = max(1, 4 * int(c['n']) // k)
+                        d['n'] = max(1, int(THOROUGH_FACTOR * int(c['n'])
+                                            ) // k)
                         out_.append(d)
                 cfgs = out_
         if args.tier == 'thorough' and getattr(mod, 'ATHERIS', None) and \
